@@ -242,9 +242,12 @@ theorem sgr_writers :
     SgrCases.quirkRewrites = [("fgIndexSet", ":", ";"), ("fgRGBSet", ":", ";"), ("bgIndexSet", ":", ";"),
       ("bgRGBSet", ":", ";")] := by decide
 
-/-- The two `[][]int` consumers have the same labels, arities and `4:n` sub-labels (since the F35 fix). -/
+/-- The two `[][]int` consumers handle the same labels, arities and `4:n` sub-labels (as sets; since the
+    F35 fix). -/
 theorem int_consumers_same_cases :
-    SgrCases.parseSGRLabels = SgrCases.emuSgrLabels ∧ SgrCases.parseSGRArities = SgrCases.emuSgrArities ∧
-    SgrCases.parseSGRUlSubs = SgrCases.emuSgrUlSubs := by decide
+    (SgrCases.parseSGRLabels.all SgrCases.emuSgrLabels.contains && SgrCases.emuSgrLabels.all SgrCases.parseSGRLabels.contains &&
+     SgrCases.parseSGRArities.all SgrCases.emuSgrArities.contains && SgrCases.emuSgrArities.all SgrCases.parseSGRArities.contains &&
+     SgrCases.parseSGRUlSubs.all SgrCases.emuSgrUlSubs.contains && SgrCases.emuSgrUlSubs.all SgrCases.parseSGRUlSubs.contains) = true := by
+  decide
 
 end VaxisModel.Props.C18
